@@ -28,12 +28,22 @@ ABSTRACTS["AbsBipGraph"] = {
     "edges": ([], TList(TTuple([INT, INT])), False),
     "is_bipartite": ([], BOOL, False),
 }
+ABSTRACTS["AbsDiGraph"] = {
+    "is_dag": ([], BOOL, False),
+    "number_of_vertices": ([], INT, False),
+    "vertices": ([], RANGE, False),
+    "predecessors": ([INT], TList(INT), True),
+    "successors": ([INT], TList(INT), True),
+    "in_degree": ([INT], INT, True),
+    "out_degree": ([INT], INT, True),
+}
 ABS_ISINSTANCE = {"AbsBipGraph": ("BaseBipartiteGraph",)}
 # driver side: Lean parser (type `P <interface>`) per abstract interface; python encoders are in py2lean_selftest.py
 ABS_PARSERS = {
     "AbsFormula": "(do let n ← int; pure (AbsFormula.mk n))",
     # a bipartite graph literal `l r m u₁ v₁ …` built by the model's own add_edge; a literal the model refuses is a bad request
     "AbsBipGraph": "(do let g ← bipG; match g with | .ok g => pure (Cnfgen.Vars.absBip g) | .error _ => failure)",
+    "AbsDiGraph": "(do let g ← diG; match g with | .ok g => pure (Cnfgen.Vars.absDi g) | .error _ => failure)",
 }
 DRIVER_IMPORTS = ["CnfgenModel.Vars.GenGlue"]
 # abstract calls of effect objects, as the driver instantiates them for the self-test (the theorems quantify over them)
@@ -230,4 +240,6 @@ ITEMS = [
      "params": {"pigeons": INT, "resting_places": INT, "holes": INT, "formula_class": TEffectClass("Formula")}},
     {"file": "cnfgen/families/pigeonhole.py", "function": "GraphPigeonholePrinciple", "property": "C01",
      "params": {"G": TAbs("AbsBipGraph"), "functional": BOOL, "onto": BOOL, "formula_class": TEffectClass("Formula")}},
+    {"file": "cnfgen/families/pebbling.py", "function": "PebblingFormula", "property": "C03",
+     "params": {"digraph": TAbs("AbsDiGraph"), "formula_class": TEffectClass("Formula")}},
 ]
